@@ -346,6 +346,45 @@ pub fn run(toks: &[&str]) -> String {
             let n = list.len();
             format!("len={} bytes={}", n, hex(&sent_list_bytes(list)))
         }
+        // cmd_biglist <how> <n> <argsize>: a list of n commands, each with one argument of argsize bytes (generated here): how many
+        // lines open / close a list on the wire, how many lines and bytes in all
+        "cmd_biglist" => {
+            let how = toks[1];
+            let n: usize = toks[2].parse().unwrap_or(0);
+            let size: usize = toks[3].parse().unwrap_or(0);
+            if n == 0 {
+                return "skip empty".into();
+            }
+            let mk = |i: usize| {
+                let mut a = format!("{i:06}");
+                while a.len() < size {
+                    a.push((b'a' + (a.len() % 26) as u8) as char);
+                }
+                Command::new("sticker").argument("get").argument("song").argument(a)
+            };
+            let mut list = CommandList::new(mk(0));
+            match how {
+                "add" => (1..n).for_each(|i| list.add(mk(i))),
+                "command" => {
+                    for i in 1..n {
+                        list = list.command(mk(i));
+                    }
+                }
+                _ => list.extend((1..n).map(mk)),
+            }
+            let len = list.len();
+            let bytes = sent_list_bytes(list);
+            if bytes.starts_with(b"WIRE-DIFFERS") {
+                return String::from_utf8_lossy(&bytes[..bytes.len().min(300)]).into_owned();
+            }
+            let lines: Vec<&[u8]> = bytes.split(|b| *b == b'\n').collect();
+            let begins = lines.iter().filter(|l| l.starts_with(b"command_list_ok_begin") || l.starts_with(b"command_list_begin")).count();
+            let ends = lines.iter().filter(|l| **l == b"command_list_end").count();
+            let cmds = lines.iter().filter(|l| l.starts_with(b"sticker get song ")).count();
+            let in_order = lines.iter().filter(|l| l.starts_with(b"sticker get song ")).enumerate().all(|(i, l)| l[17..].starts_with(format!("{i:06}").as_bytes()) || l[17..].starts_with(format!("\"{i:06}").as_bytes()));
+            format!("len={len} begins={begins} ends={ends} commands={cmds} in_order={} bytes={} last_is_end={}", in_order as u8, bytes.len(),
+                    (lines.len() >= 2 && lines[lines.len() - 2] == b"command_list_end" && lines[lines.len() - 1].is_empty()) as u8)
+        }
         "escape" => {
             let Some(s) = unhex_str(toks[1]) else { return "skip non-utf8".into() };
             hex(mpd_protocol::command::escape_argument(&s).as_bytes())
